@@ -5,13 +5,13 @@ Streams
             fractional coordinates, float32 tables, soma, connectors, every label / connector / metadata option) →
             `navis.write_swc` into a temp dir outside /verif and /repo → the BYTES of the file go to the Lean lexer +
             `parseSwc` + `swcValidB` (proved equivalent to the specification) + comparison with the model's
-            `finish (labelOf …) order` for the order induced by the implementation's node map (which must be an
-            admissible `sort_values('parent_id')` result) → `navis.read_swc` of the same file compared with the Lean
+            `finish (labelOf …) order` for the order induced by the implementation's node map (which must be exactly
+            the model's stable sort by depth) → `navis.read_swc` of the same file compared with the Lean
             `readBack` and, independently, with the original skeleton under the node map.
   sources : the same file(s) through path / Path / str / StringIO / BytesIO / DataFrame / folder / zip / tar(.gz) /
             list of paths; `fmt` patterns (correspondence of `parse_filename` with the Lean `matchFmt`).
   parse   : hand-made SWC text (interleaved comments, blank lines, extra columns, delimiters, meta lines in odd places).
-  nanrow  : SWC text with NaN in a key column (DESIGN §6 #15).
+  nanrow  : SWC text with NaN in a key column (id / parent / x / y / z): rows dropped, orphans re-rooted (DESIGN §6 #15, fixed).
   small   : (thorough) every forest on ≤ 5 labelled nodes.
 """
 import io, os, json, math, shutil, tarfile, tempfile, warnings, zipfile, itertools, random, pathlib
@@ -30,9 +30,6 @@ navis.set_loggers('ERROR')
 
 SEP = '\x1e'
 _L = {'root': 'r', 'end': 'e', 'branch': 'b', 'slab': 's'}
-SIG_ORDER = 'write_swc/parent-after-child/table-not-id-topological'
-SIG_NAN = 'read_swc/sanitise_nodes/nan-row-raises'
-SIG_UNITS = 'write_swc+read_swc/units/anisotropic-units-collapsed'
 
 
 # ------------------------------------------------------------------------------------------------
@@ -188,8 +185,16 @@ def wire_skel(x):
     pre = [int(v) for v in x.presynapses.node_id.values] if has else []
     post = [int(v) for v in x.postsynapses.node_id.values] if has else []
     extra = f"soma={','.join(map(str, soma_list(x)))} hasconn={int(has)} pre={','.join(map(str, pre))} post={','.join(map(str, post))}"
-    attrs = ';'.join(f'{k}={getattr(x, k, None)}' for k in ('id', 'name', 'units'))
+    attrs = ';'.join(f'{k}={meta_text(x, k)}' for k in ('id', 'name', 'units'))
     return ' '.join(toks), extra, attrs
+
+
+def meta_text(x, k):
+    """Text of an attribute in the Meta line: str(value); per-axis units are a JSON list of the three unit strings."""
+    v = getattr(x, k, None)
+    if k == 'units' and navis.utils.is_iterable(getattr(v, 'magnitude', None)):
+        return json.dumps([str(u) for u in v])
+    return str(v)
 
 
 def file_payload(path):
@@ -285,7 +290,8 @@ def case_write(ctx, case):
     pm0 = {int(i): int(p) for i, p in zip(x.nodes.node_id.values, x.nodes.parent_id.values)}
     tbl = fields(ctx.ask(f'c07.table {opts_s} | {nodes_s} | {extra_s} | {attrs_s}'))
     ctx.oracle(tbl.get('wf') == '1', 'generated skeleton is not a well-formed forest (generator bug)', case)
-    ctx.oracle(tbl.get('topovalid') == '1', 'model: makeSwcTableTopo produced an invalid table (contradicts topo_table_valid)', case)
+    ctx.oracle(tbl.get('valid') == '1', 'model: makeSwcTable produced an invalid table (contradicts table_valid)', case)
+    ctx.corr(tbl.get('histvalid'), tbl.get('cond'), 'model: historical ordering valid vs its condition (historical_sortByParent_valid_iff)', case)
     with Tmp() as d:
         path = os.path.join(d, case.get('fname', 'nrn.swc'))
         try:
@@ -315,7 +321,6 @@ def case_write(ctx, case):
         resp = fields(ctx.ask(f'c07.file {opts_s} | {nodes_s} | {extra_s} | {attrs_s} | {map_s} |{payload}'))
         n = len(pm0)
         cond = resp.get('cond') == '1'
-        ctx.count('id_topological_condition', 'holds' if cond else 'violated')
         # --- the file is an SWC table ------------------------------------------------------------
         ctx.oracle(resp.get('parse') == '1', 'the written file does not parse as an SWC table', case)
         ctx.oracle(resp.get('ncols') == '7', f'the written file has {resp.get("ncols")} columns, not seven', case)
@@ -326,27 +331,21 @@ def case_write(ctx, case):
         is_sorted = resp.get('sorted') == '1'
         if not valid:
             bad_kind, bad_txt = _first_bad(resp.get('rows', ''))
-            # known defect: exactly the inputs for which anyParentSort_valid_iff says the as-written order is invalid
-            known = bad_kind == 'parent-after-child' and is_sorted and not cond
             ctx.oracle(False, 'written SWC table is not valid (ids 1..N, roots -1, every parent listed before and numbered '
-                       'lower than its children): ' + bad_txt, case, signature=SIG_ORDER if known else None)
+                       'lower than its children): ' + bad_txt, case)
         else:
             ctx.oracle(True, 'valid', case)
-        if is_sorted:
-            # instance of sortByParent_valid_iff / anyParentSort_valid_iff on the implementation's own order
-            ctx.corr(str(int(valid)), str(int(cond)), 'validity of the written table vs the model condition '
-                     '"every node with a child has parent_id < node_id" (anyParentSort_valid_iff)', case)
         # --- correspondence with the model -----------------------------------------------------------
-        ctx.corr('1' if (is_sorted or valid) else '0', '1', 'write_swc: file order is neither an ascending sort by parent_id '
-                 '(make_swc_table as written) nor a valid parent-first order', case)
-        ctx.count('order_kind', 'parent-sort' if is_sorted else ('parent-first' if valid else 'other'))
+        ctx.corr(resp.get('sorted'), '1', 'write_swc: file order is not ascending by depth (steps to the root)', case)
+        ctx.corr(resp.get('stable'), '1', 'write_swc: file order differs from the stable sort by depth of the node table', case)
+        ctx.count('order_kind', 'depth-sort' if is_sorted else ('parent-first' if valid else 'other'))
+        ctx.count('historical_order_would_be', 'valid' if cond else 'invalid')
         for key, what in (('mapok', 'node map is not a bijection of the node ids onto 1..N'),
                           ('agree', 'file rows differ from the model table (labels / ids / parent remap / radius fill / columns)'),
                           ('mapagree', 'returned node map differs from the model map for the same order'),
                           ('hdr', 'header (comment lines / Meta line) differs from the model header'),
                           ('rt', 'model write → parse does not reproduce the file rows')):
             ctx.corr(resp.get(key), '1', f'write_swc: {what}', case)
-        ctx.count('stable_order', resp.get('stable'))
         rows = [r.split(':') for r in resp.get('rows', '').split()]
         # --- read back -----------------------------------------------------------------------------------
         r = case.get('read', {})
@@ -440,8 +439,9 @@ def case_write(ctx, case):
             if 'units' in keys:
                 aniso = navis.utils.is_iterable(x.units.magnitude)
                 same = _units_equal(x.units, z.units)
-                ctx.oracle(same, f'units {x.units} come back as {z.units}', case, signature=SIG_UNITS if aniso else None)
-                ctx.corr(props.get('units'), str(x.units), 'Meta line units text', case)
+                ctx.oracle(same, f'units {x.units} come back as {z.units}', case)
+                ctx.count('units', 'per-axis' if aniso else 'isotropic')
+                ctx.corr(props.get('units'), meta_text(x, 'units'), 'Meta line units text', case)
             if 'id' in keys:
                 ctx.oracle(z.id == str(x.id), f'id {x.id!r} comes back as {z.id!r} (expected its text)', case)
             if isinstance(wm, dict):
@@ -685,26 +685,37 @@ def case_parse(ctx, case):
 
 
 def case_nanrow(ctx, case):
+    """SWC text with NaN in a key column: read_swc drops the rows and re-roots the orphans (= Lean `sanitiseRows`)."""
     text = case['text']
     lines = text.split('\n')
     if lines and lines[-1] == '':
         lines = lines[:-1]
+    prec = case.get('precision', 64)
     resp = fields(ctx.ask(f'c07.sanitised soma=1 |{SEP.join(lines)}'))
     try:
-        z = navis.read_swc(text, precision=64)
+        z = navis.read_swc(text, precision=prec)
         err = None
     except Exception as e:
         z, err = None, e
     ctx.count('nanrow_outcome', 'raises' if err is not None else 'ok')
     if err is not None:
         ctx.oracle(False, f'read_swc of an SWC table with a NaN row raises {type(err).__name__} ({type(err.__cause__).__name__ if err.__cause__ else ""}: '
-                   f'{str(err.__cause__)[:80] if err.__cause__ else ""}) instead of dropping the row', case, signature=SIG_NAN)
+                   f'{str(err.__cause__)[:80] if err.__cause__ else ""}) instead of dropping the row', case)
         return
     rows = [rw.split(':') for rw in resp.get('rows', '').split()]
     zt = table_of(z)
     ok = len(zt) == len(rows) and all(a[0] == int(b[0]) and a[1] == int(b[6]) for a, b in zip(zt, rows))
     ctx.oracle(ok, f'read_swc with NaN rows: table {[(a[0], a[1]) for a in zt]} vs rows without the NaN rows, orphans made roots '
-               f'{[(int(b[0]), int(b[6])) for b in rows]}', case, signature=None)
+               f'{[(int(b[0]), int(b[6])) for b in rows]}', case)
+    # independent of the model: exactly the complete rows survive, nobody refers to a dropped row
+    bad = set(case.get('bad', []))
+    want_ids = [i for i in case.get('ids', []) if i not in bad]
+    if case.get('ids'):
+        ctx.oracle([a[0] for a in zt] == want_ids, f'read_swc with NaN rows kept ids {[a[0] for a in zt]}, complete rows are {want_ids}', case)
+    ctx.oracle(all(a[1] == -1 or a[1] in {b[0] for b in zt} for a in zt), 'read_swc with NaN rows left a dangling parent', case)
+    if prec is not None and len(zt):
+        ctx.oracle(str(z.nodes.node_id.dtype).startswith('int') and str(z.nodes.parent_id.dtype).startswith('int'),
+                   f'read_swc with NaN rows: id columns have dtypes {z.nodes.node_id.dtype}/{z.nodes.parent_id.dtype}, not integers', case)
 
 
 # ------------------------------------------------------------------------------------------------
@@ -804,11 +815,15 @@ def gen_parse_text(r):
             lines.append('# Meta: ' + json.dumps(meta))
     malformed = r.random() < 0.12
     if malformed and n >= 1:
-        kind = r.choice(['short', 'shortall'])
+        kind = r.choice(['short', 'shortall', 'ragged'])
         body = [k for k, l in enumerate(lines) if l and not l.lstrip().startswith('#')]
         if kind == 'shortall':
             for k in body:
                 lines[k] = dch.join(lines[k].split('#')[0].strip().split(dch)[:5])
+        elif kind == 'ragged' and len(body) >= 2:
+            # a later row with fewer fields: read_csv pads with NaN, sanitise_nodes drops the row
+            k = r.choice(body[1:])
+            lines[k] = dch.join(lines[k].split('#')[0].strip().split(dch)[:r.choice([4, 6])])
         else:
             k = body[0]
             lines[k] = dch.join(lines[k].split('#')[0].strip().split(dch)[:6])
@@ -823,11 +838,16 @@ def gen_nanrow(r):
     bad = set(r.sample(range(n), r.randint(1, max(1, n // 3))))
     for k in range(n):
         p = -1 if k == 0 else r.randrange(1, k + 1)
-        xyz = ['1.0', '2.0', '3.0']
+        f = [str(k + 1), '0', '1.0', '2.0', '3.0', '0.5', str(p)]
         if k in bad:
-            xyz[r.randrange(3)] = r.choice(['nan', 'NaN', 'None'])
-        lines.append(' '.join([str(k + 1), '0'] + xyz + ['0.5', str(p)]))
-    return dict(text='\n'.join(lines) + '\n', bad=sorted(b + 1 for b in bad))
+            col = r.choice([2, 3, 4, 2, 3, 4, 6, 0])
+            if col == 0:
+                f[0] = r.choice(['nan', 'NaN'])
+            else:
+                f[col] = r.choice(['nan', 'NaN', 'None'])
+        lines.append(' '.join(f))
+    bad_ids = sorted(b + 1 for b in bad)
+    return dict(text='\n'.join(lines) + '\n', bad=bad_ids, ids=list(range(1, n + 1)), precision=r.choice([64, 32]))
 
 
 CHAIN5 = dict(rows=[dict(id=i, parent=(i - 1 if i > 1 else -1), x=3 * i, y=0, z=0) for i in range(1, 6)], reroot=5,
@@ -866,7 +886,7 @@ def run(ctx):
         case = dict(gen_parse_text(r), kind='parse')
         ctx.case(case, nontrivial=True)
         case_parse(ctx, case)
-    for k in range(ctx.budget(6, 40)):
+    for k in range(ctx.budget(25, 250)):
         case = dict(gen_nanrow(r), kind='nanrow')
         ctx.case(case, nontrivial=True)
         case_nanrow(ctx, case)
@@ -874,8 +894,8 @@ def run(ctx):
         'data rows of a written file end with \\r\\n (csv.writer default) while header lines end with \\n; the Lean lexer and pandas both accept it',
         'labels=<dict> is applied with swc.index.map(labels), i.e. keyed by the DataFrame index label, not by node_id as the docstring says; '
         'the model follows the code (the property does not constrain custom labels)',
-        'pandas sort_values(kind=quicksort) is not stable: the tie order among rows with equal parent_id differs from a stable sort in about '
-        'half of the cases; the correspondence therefore checks the order induced by the returned node map against IsParentSort',
+        'make_swc_table sorts with kind="stable" on the depth column, so the file order is determined: the correspondence demands exactly '
+        'the model order (sortByDepth); histogram historical_order_would_be counts the inputs on which the former parent_id sort was invalid',
         'export_connectors=True on a skeleton without connector table raises ValueError (x.presynapses); modelled as writeRaises',
         'a synapse label overrides the soma label on the same node (one label per node); counted, not flagged',
     ]
